@@ -445,8 +445,10 @@ func (m *Muxer) writePlaylist(isLast bool) {
 		}
 	})
 	if maxDuration > maxFrag {
-		maxFrag = maxDuration + 0.5
+		maxFrag = maxDuration
 	}
+	// 配置的分片时长不一定是整秒（比如2700ms），同样需要四舍五入，否则2.6秒的分片对应的TARGETDURATION会是2
+	maxFrag += 0.5
 
 	// TODO chef 优化这块buffer的构造
 	var buf bytes.Buffer
